@@ -10,7 +10,7 @@ Open Scope string_scope.
 Inductive verdict :=
   | Modelled (theorem : string)      (* list-level model, `batch = map single` proved *)
   | PartialModel (theorem : string)  (* list-level model, proved up to the stated restriction *)
-  | Finding (signature : string)     (* batch dependent: known finding with this signature *)
+  | Finding (signature : string)     (* batch dependent: open known finding with this signature (none at present) *)
   | NumericOnly                      (* not modelled: covered by the vectorised-vs-single search only *)
   | NotFieldPath.                    (* mesh validation helpers, not reached from getB/getH/getJ/getM *)
 
@@ -24,7 +24,7 @@ Definition expected_inventory : list (string * string * string * string * verdic
   (("field_BH_cylinder.py", "BHJM_magnet_cylinder", "agg if -> store", "any(mask_tv_inside)"), Modelled "guarded_masked_eval_rowwise");
   (("field_BH_cylinder.py", "BHJM_magnet_cylinder", "agg if -> store", "any(mask_ax_inside)"), Modelled "guarded_masked_eval_rowwise");
   (("field_BH_cylinder_segment.py", "magnet_cylinder_segment_Hfield", "agg if -> store", "any(mask)"), Modelled "guarded_masked_eval_rowwise");
-  (("field_BH_cylinder_segment.py", "BHJM_cylinder_segment", "agg if-not -> return", "np.any(mask_not_on_surf)"), Finding "row-independent/CylinderSegment:JM:all-on-surface-exit");
+  (("field_BH_cylinder_segment.py", "BHJM_cylinder_segment", "agg if-not -> return", "np.any(mask_not_on_surf)"), Modelled "cylseg_JM_gen_rowwise");
   (("field_BH_dipole.py", "dipole_Hfield", "agg if -> call+store", "np.any(mask1)"), Modelled "guarded_masked_eval_rowwise");
   (("field_BH_polyline.py", "current_vertices_field", "agg if -> rebind", "all((v == nvs[0] for v in nvs))"), Modelled "vertex_sets_rowwise");
   (("field_BH_polyline.py", "current_polyline_Hfield", "agg if -> rebind", "np.any(mask1)"), Modelled "guarded_compress_neutral");
@@ -95,7 +95,7 @@ Definition is_unmodelled (v : verdict) : bool := match v with NumericOnly => tru
 
 Theorem inventory_census :
   List.length expected_inventory = 70%nat /\
-  List.length (filter (fun e => is_finding (snd e)) expected_inventory) = 1%nat /\
+  List.length (filter (fun e => is_finding (snd e)) expected_inventory) = 0%nat /\
   List.length (filter (fun e => is_unmodelled (snd e)) expected_inventory) = 22%nat.
 Proof. repeat split; reflexivity. Qed.
 
